@@ -2842,7 +2842,7 @@ def comprehension(ip, e, fr, kind):
 SPEC_FUNCS = {'old', 'forall', 'exists', 'implies', 'iff', 'ite', 'dom', 'union', 'inter', 'diff', 'subset',
               'empty', 'add', 'remove', 'use', 'check', 'assume', 'pow2', 'store', 'lookup', 'has',
               'is_none', 'some', 'slice_', 'concat', 'listof', 'setof', 'card', 'fresh', 'havoc', 'tup',
-              'seq_eq', 'div', 'mod', 'bv', 'apply', 'let', 'take', 'snoc', 'copy', 'drop', 'sub', 'is_err', 'okval', 'truthy'}
+              'seq_eq', 'div', 'mod', 'bv', 'apply', 'let', 'take', 'snoc', 'copy', 'drop', 'sub', 'is_err', 'okval', 'truthy', 'truthy_j'}
 
 
 def find_old(fr):
@@ -2991,6 +2991,16 @@ def spec_call(ip, e, fr):
         if isinstance(d, VList):
             return VList(z3.Store(d.arr, int_term(k), d.ek.unwrap(v)), d.n, d.ek)
         raise EngineError('store on this value')
+    if name == 'truthy_j':
+        # Python truthiness of a JSON value, as a term
+        v = ev(e.args[0])
+        t = KJ.unwrap(v)
+        s_ = J_sort()
+        return KBool.wrap(z3.Or(z3.And(s_.is_JBool(t), s_.jb(t)), z3.And(s_.is_JInt(t), s_.ji(t) != 0),
+                                z3.And(s_.is_JFloat(t), z3.Not(z3.And(s_.jfk(t) == 0, s_.jfr(t) == 0))),
+                                z3.And(s_.is_JStr(t), UF('slen', z3.StringSort(), z3.IntSort())(s_.js(t)) > 0),
+                                z3.And(s_.is_JList(t), UF('jlist_len', z3.IntSort(), z3.IntSort())(s_.jl(t)) > 0),
+                                z3.And(s_.is_JDict(t), UF('jdict_len', z3.IntSort(), z3.IntSort())(s_.jd(t)) > 0)))
     if name == 'truthy':
         return KBool.wrap(bt(e.args[0]))
     if name == 'is_err':
